@@ -176,7 +176,11 @@ func (s *Spec) emitTypeDecl(b *strings.Builder, t *Type, pkg string) {
 			if !s.carriesH(s.Types[f.T]) {
 				continue
 			}
-			fmt.Fprintf(b, "\tx.%s = mk%d(probe.Mix(h, %d))\n", f.Name, f.T, 1000+fi) // structs with fields live in the main package
+			mkf := fmt.Sprintf("mk%d", f.T)
+			if pkg != "" {
+				mkf = s.fn("mk", f.T, pkg) // a sibling-package struct only has fields of its own package
+			}
+			fmt.Fprintf(b, "\tx.%s = %s(probe.Mix(h, %d))\n", f.Name, mkf, 1000+fi)
 		}
 		fmt.Fprintf(b, "\treturn x\n}\n")
 		if t.Pure {
@@ -189,7 +193,11 @@ func (s *Spec) emitTypeDecl(b *strings.Builder, t *Type, pkg string) {
 		for _, f := range t.Fields {
 			if s.carriesH(s.Types[f.T]) {
 				hasF = true
-				parts = append(parts, fmt.Sprintf("h%d(x.%s)", f.T, f.Name))
+				if pkg != "" {
+					parts = append(parts, fmt.Sprintf("%s(x.%s)", s.fn("h", f.T, pkg), f.Name))
+				} else {
+					parts = append(parts, fmt.Sprintf("h%d(x.%s)", f.T, f.Name))
+				}
 			} else {
 				parts = append(parts, "0")
 			}
@@ -419,7 +427,12 @@ func (s *Spec) emitDecls(file int) string {
 	if body == "" {
 		body = "var _ = 0\n"
 	}
-	return "//go:generate go tool kessoku $GOFILE\n\n" + s.header(s.mainPkgName(), body, true) + body
+	hdr := s.header(s.mainPkgName(), body, true)
+	if s.KessokuAlias != "" {
+		body = strings.ReplaceAll(body, "kessoku.", s.KessokuAlias+".")
+		hdr = strings.Replace(hdr, "\t\"github.com/mazrean/kessoku\"", "\t"+s.KessokuAlias+" \"github.com/mazrean/kessoku\"", 1)
+	}
+	return "//go:generate go tool kessoku $GOFILE\n\n" + hdr + body
 }
 
 func (s *Spec) emitReg() string {
